@@ -206,22 +206,20 @@ Definition in_scope_literal (c : cfg) : bool :=
 (* ------------------------------------------------------------------ *)
 (* The code                                                            *)
 
-(* Behaviours of the code that were repaired (kept as mutants) or that differ
-   from the specification today (kept as a switch so that the model follows a
-   repair): *)
+(* Four behaviours of the code that were repaired in /repo; each is kept as a
+   switch so that the old code is available as a mutant of the model: *)
 Record variant := mkVariant {
   v_realpath_str : bool;   (* OLD: path = os.path.realpath(obj)  - a str, not the encoded path *)
   v_rectype_bug  : bool;   (* OLD: if not obj_type == ("auto" or "directory")  - i.e. obj_type != "auto" *)
   v_auto_follows : bool;   (* OLD: auto-detection by isfile/isdir only, which follow links *)
-  v_rec_follows  : bool    (* NOW: `recursive and not os.path.isdir(objects[0])` follows links whatever --no-dereference says *)
+  v_rec_follows  : bool    (* OLD: `if recursive and not os.path.isdir(objects[0])` - follows links whatever --no-dereference says *)
 }.
 
-Definition current : variant := mkVariant false false false true.
-Definition old_realpath : variant := mkVariant true false false true.
-Definition old_rectype : variant := mkVariant false true false true.
-Definition old_autolink : variant := mkVariant false false true true.
-(* what the code would be with `-r` honouring --no-dereference *)
-Definition repaired : variant := mkVariant false false false false.
+Definition current : variant := mkVariant false false false false.
+Definition old_realpath : variant := mkVariant true false false false.
+Definition old_rectype : variant := mkVariant false true false false.
+Definition old_autolink : variant := mkVariant false false true false.
+Definition old_recfollows : variant := mkVariant false false false true.
 
 Inductive res := ROk (o : obj) (excluded : bool) | RUsage | RCrash (c : crash).
 
@@ -296,7 +294,8 @@ Definition rectype_rejects (v : variant) (t : otype) : bool :=
   if v_rectype_bug v then negb (otype_eqb t TAuto)
   else negb (otype_eqb t TAuto || otype_eqb t TDirectory).
 
-(* `os.path.isdir(objects[0])` in the test that disables --recursive *)
+(* `os.path.isdir(objects[0]) and (follow_symlinks or not os.path.islink(objects[0]))`
+   in the test that disables --recursive *)
 Definition rec_isdir (v : variant) (c : cfg) : bool :=
   if v_rec_follows v then isdir (arg c)
   else isdir (arg c) && (deref c || negb (islink (arg c))).
@@ -331,7 +330,7 @@ Definition identify_model : cfg -> outcome := identify_gen current.
 Definition identify_old_realpath : cfg -> outcome := identify_gen old_realpath.
 Definition identify_old_rectype : cfg -> outcome := identify_gen old_rectype.
 Definition identify_old_autolink : cfg -> outcome := identify_gen old_autolink.
-Definition identify_repaired : cfg -> outcome := identify_gen repaired.
+Definition identify_old_recfollows : cfg -> outcome := identify_gen old_recfollows.
 
 (* ------------------------------------------------------------------ *)
 (* The specification                                                   *)
@@ -374,18 +373,7 @@ Definition spec_strict (c : cfg) : outcome :=
     | VNonMatch => Exit1
     end.
 
-(* The in-scope configurations on which the code of today still differs from
-   [spec]: `-r --no-dereference <link to a directory>` (type auto or content).
-   The link must not be followed, so the designated object is the link itself
-   (a content, one node); the code lists the directory behind the link (or
-   refuses --verify / -t content). *)
-Definition known_deviation (c : cfg) : bool :=
-  match arg c with
-  | ALinkDir => negb (deref c) && recur c
-  | _ => false
-  end.
-
-(* classes of configurations broken by each of the three old behaviours *)
+(* classes of in-scope configurations broken by each of the four old behaviours *)
 Definition old_realpath_class (c : cfg) : bool :=      (* swh identify [-t directory] <link->dir> *)
   match arg c with
   | ALinkDir => deref c && negb (recur c)
@@ -395,8 +383,17 @@ Definition old_rectype_class (c : cfg) : bool :=       (* swh identify -r -t dir
   recur c && otype_eqb (ty c) TDirectory && negb (has_verify c).
 Definition old_autolink_class (c : cfg) : bool :=      (* swh identify --no-dereference <link->dir> *)
   match arg c with
-  | ALinkDir => negb (deref c) && negb (recur c) && otype_eqb (ty c) TAuto
+  | ALinkDir => negb (deref c) && otype_eqb (ty c) TAuto
                 && match ver c with VNonMatch => false | _ => true end   (* a wrong id is refused either way *)
+  | _ => false
+  end.
+(* swh identify -r --no-dereference <link->dir> (type auto or content): the
+   link must not be followed, so the designated object is the link itself (a
+   content, one node); the old code listed the directory behind the link (or
+   refused --verify / -t content) *)
+Definition old_recfollows_class (c : cfg) : bool :=
+  match arg c with
+  | ALinkDir => negb (deref c) && recur c
   | _ => false
   end.
 
@@ -444,7 +441,7 @@ Definition nondefault (c : cfg) : nat :=
   + (if recur c then 1 else 0) + (if has_verify c then 1 else 0) + (if excl c then 1 else 0).
 
 (* ------------------------------------------------------------------ *)
-(* Examples (the three repaired behaviours and today's deviation)        *)
+(* Examples (the four repaired behaviours)                              *)
 
 (* swh identify <link->dir> *)
 Example ex_linkdir_now : identify_model (mkCfg ALinkDir TAuto true true false VNone false)
@@ -466,12 +463,12 @@ Proof. vm_compute. reflexivity. Qed.
 Example ex_autolink_old : identify_old_autolink (mkCfg ALinkDir TAuto false true false VNone false)
                           = Print ODirAtLinkTarget false true false.
 Proof. vm_compute. reflexivity. Qed.
-(* swh identify -r --no-dereference <link->dir>: the code lists the target, the specification names the link *)
+(* swh identify -r --no-dereference <link->dir> *)
 Example ex_rec_noderef_now : identify_model (mkCfg ALinkDir TAuto false true true VNone false)
-                             = Print ODirAtLinkTarget false true true.
+                             = Print OLinkText false true false.
 Proof. vm_compute. reflexivity. Qed.
-Example ex_rec_noderef_spec : spec (mkCfg ALinkDir TAuto false true true VNone false)
-                              = Print OLinkText false true false.
+Example ex_rec_noderef_old : identify_old_recfollows (mkCfg ALinkDir TAuto false true true VNone false)
+                             = Print ODirAtLinkTarget false true true.
 Proof. vm_compute. reflexivity. Qed.
 Example ex_count : length all_cfgs = 1680.
 Proof. vm_compute. reflexivity. Qed.
